@@ -671,7 +671,16 @@ def rule_R7(ctx):
     ctx.floor("R7", "window multiplier return sites", len(seen), 12)
 
 
+def rule_tokens(ctx):
+    """the rendered text uses the signature vocabulary: option / quirk / window / TTL tokens printed by Display are the ones the
+    database parser reads back (shared with C06.R1)"""
+    from ..engine import report as R
+    from . import C06
+    C06.rule_R1_R2(R.Retag(ctx, "C06."))
+
+
 def run(ctx):
+    rule_tokens(ctx)
     rule_R7(ctx)
     rule_R1_options(ctx)
     rule_R2(ctx)
